@@ -134,7 +134,7 @@ class SymBool:
         return SymBool(self.t != _bterm(o))
 
     def __hash__(self):
-        return self.t.hash()
+        return hash(self.t.sexpr())
 
     # numeric use of a bool (sum(l != r ...), True*x)
     def _num(self):
@@ -404,7 +404,9 @@ class SymReal:
         return True if r is NotImplemented else r
 
     def __hash__(self):
-        return self.t.hash()
+        # hash of the full term text: two structurally different terms must not collide, otherwise dict / lru_cache lookups
+        # would call the symbolic __eq__ on them and fork (z3's own 32-bit ast hash collides, e.g. on h/2 and -h/2)
+        return hash(self.t.sexpr())
 
     def __bool__(self):
         return bool(self != 0)
